@@ -240,6 +240,14 @@ def run(ctx):
             probs.append({"problem": True, "N": N, "W": W, "seed": ctx.rng.randrange(2 ** 31),
                           "rho": ctx.rng.choice([1, 1, 0.1, 0.5, 3.0, 10.0]), "rho_update": ctx.rng.random() < 0.25,
                           "unconditional": i % 3 == 0})
+    if replay is None:
+        # interaction grid: every lambda form x every kind of rho schedule (a schedule that ENDS at a rho different
+        # from the initial one is what a stale rho-dependent precomputation would get wrong)
+        for lk in ("scalar", "const-matrix", "matrix"):
+            for sched in ("up", "down", "balance"):
+                probs.append({"problem": True, "N": ctx.rng.choice([2, 3]), "W": ctx.rng.choice([2, 3]),
+                              "seed": ctx.rng.randrange(2 ** 31), "rho": 1.0, "rho_update": True,
+                              "unconditional": False, "grid_lambda": lk, "grid_sched": sched})
     max_iter_seen = 0
     for c in probs:
         r = pyrandom.Random(c["seed"])
@@ -258,6 +266,32 @@ def run(ctx):
             lam_kind, lam = gen_lambda(r, n, N, W)
             rho = c["rho"]
             cb = (lambda rho_, rp, tp, rd, td: rho_ * 2 if rp > 10 * rd else (rho_ / 2 if rd > 10 * rp else rho_)) if c["rho_update"] else None
+            if c.get("grid_lambda"):
+                rs_g = np.random.RandomState(c["seed"] % 2 ** 31)
+                Qg, _ = np.linalg.qr(rs_g.randn(n, n))
+                S = (Qg * rs_g.uniform(0.25, 4.0, size=n)) @ Qg.T
+                S = (S + S.T) / 2
+                kind = "eig[0.25,4]"
+                if c["grid_lambda"] == "scalar":
+                    lam_kind, lam = "scalar", 0.3
+                elif c["grid_lambda"] == "const-matrix":
+                    lam_kind, lam = "const-matrix", np.full((n, n), 0.3)
+                else:
+                    Mg = rs_g.uniform(0.05, 0.8, size=(n, n))
+                    lam_kind, lam = "matrix", (Mg + Mg.T) / 2
+                calls_seen = {"n": 0}
+                sched = c["grid_sched"]
+
+                def cb(rho_, rp, tp, rd, td, _c=calls_seen, _s=sched):
+                    _c["n"] += 1
+                    if _s == "up":
+                        return rho_ * 1.5 if _c["n"] <= 4 else rho_
+                    if _s == "down":
+                        return rho_ / 1.5 if _c["n"] <= 4 else rho_
+                    if _c["n"] > 25:
+                        return rho_
+                    return rho_ * 2 if rp > 10 * rd else (rho_ / 2 if rd > 10 * rp else rho_)
+                ctx.count(f"grid:{lam_kind}/{sched}")
         # a sequence of solves in one process: an array-valued lambda is UPDATED IN PLACE between solves
         # (same object, new contents), as a caller sweeping the penalty would do
         n_seq = 3 if (isinstance(lam, np.ndarray) and c.get("seed", 0) % 2 == 0) else 1
